@@ -1933,7 +1933,9 @@ func (self *LockDB) doExpried(lock *Lock, forcedExpried bool, removeWaited bool)
 			}
 		}
 
-		if lock.command.ExpriedFlag&protocol.EXPRIED_FLAG_MILLISECOND_TIME == 0 && lock.expriedTime > self.currentTime {
+		// renewed since the sweeper picked it up: for a hold that comes from the second wheel (removeWaited is
+		// set by the millisecond wheel only) the deadline in seconds decides, whatever unit its new terms carry
+		if (lock.command.ExpriedFlag&protocol.EXPRIED_FLAG_MILLISECOND_TIME == 0 || !removeWaited) && lock.expriedTime > self.currentTime {
 			self.AddExpried(lock)
 			lockManager.glock.Unlock()
 			return
